@@ -41,15 +41,17 @@ CONSTANTS H,                \* half width of the grid
           Chained,          \* TRUE: every operation involves the result of the previous one (chains proper)
           PolyOps,          \* subset of {"setop","rotate","translate","scale","copy","poke"}
           DevOps,           \* subset of {"mkdev","devcopy","devtranslate","devrotate","devscale"}
+          ProbeModes,       \* how MkDev chooses probe points: subset of {"none","inside","outside"}
           MSubIsDifference, \* `a - b` / difference() is the set difference
           MCopyOnTransform, \* polygon = self if inplace else self.copy()
           MOrient,          \* the points setter re-orients the ring counter-clockwise
           MCopyFresh,       \* copy() owns a fresh vertex buffer
           MDeviceUsesHoles, \* Device.contains_points removes the holes
+          MProbeOrigin,     \* Device.rotate / scale move the probe points about the SAME origin as the polygons
           Export            \* keep the chain in `hist` and print it at the end (behaviour export)
 
 VARIABLES objs,   \* heap of polygons: sequence of object records
-          devs,   \* heap of devices: [film, holes (sequence of object ids), inside (cells)]
+          devs,   \* heap of devices: [film, holes (sequence of object ids), inside (cells), probes (doubled points)]
           nb,     \* next fresh buffer id
           nops,   \* operations performed so far
           last,   \* the last operation, with the heap before it (one-step history)
@@ -82,6 +84,17 @@ ScaleAxis(x, f, o) == LET lo == IF f > 0 THEN o + f * (x - o) ELSE o + f * (x + 
                       IN  lo .. (lo + Abs(f) - 1)
 ScaleSet(S, f, o) == UNION {ScaleAxis(c[1], f[1], o[1]) \X ScaleAxis(c[2], f[2], o[2]) : c \in S}
 InGrid(S) == S \subseteq Cells
+\* probe points are kept in DOUBLED coordinates <<2x, 2y>> (a cell centre is <<2cx+1, 2cy+1>>; scaling by 2 about
+\* an integer origin sends it to a grid vertex): the same affine maps, exactly
+Centre2(c) == <<2 * c[1] + 1, 2 * c[2] + 1>>
+Shift2(P, s) == <<P[1] + 2 * s[1], P[2] + 2 * s[2]>>
+RotP1(P, o) == <<2 * o[1] - (P[2] - 2 * o[2]), 2 * o[2] + (P[1] - 2 * o[1])>>
+Rot2(P, o, q) == IF q = 0 THEN P ELSE IF q = 1 THEN RotP1(P, o)
+                 ELSE IF q = 2 THEN RotP1(RotP1(P, o), o) ELSE RotP1(RotP1(RotP1(P, o), o), o)
+Scale2(P, f, o) == <<2 * o[1] + f[1] * (P[1] - 2 * o[1]), 2 * o[2] + f[2] * (P[2] - 2 * o[2])>>
+CellLess(a, b) == a[1] < b[1] \/ (a[1] = b[1] /\ a[2] < b[2])
+MinCell(S) == CHOOSE c \in S : \A d \in S : c = d \/ CellLess(c, d)
+MaxCell(S) == CHOOSE c \in S : \A d \in S : c = d \/ CellLess(d, c)
 
 \* ---- which cell sets are polygons (simple, simply connected, with interior)
 Nbrs(c) == {<<c[1] + 1, c[2]>>, <<c[1] - 1, c[2]>>, <<c[1], c[2] + 1>>, <<c[1], c[2] - 1>>}
@@ -133,11 +146,12 @@ Leader(os, i) == Min({j \in 1 .. Len(os) : os[j].buf = os[i].buf})
 
 ----------------------------------------------------------------------------
 NoOp == [op |-> "init", kind |-> "", a |-> 0, b |-> 0, inplace |-> FALSE, q |-> 0, par |-> <<0, 0>>,
-         org |-> <<0, 0>>, hs |-> <<>>, res |-> 0, out |-> "ok"]
+         org |-> <<0, 0>>, hs |-> <<>>, pm |-> "none", probes |-> <<>>, res |-> 0, out |-> "ok"]
 
 Snapshot(os, ds) == [objs |-> [i \in 1 .. Len(os) |-> [rows |-> Rows(os[i].cells), area |-> os[i].area, bbox |-> os[i].bbox,
                                                       ccw |-> os[i].ccw, closed |-> os[i].closed, lead |-> Leader(os, i)]],
-                     devs |-> [d \in 1 .. Len(ds) |-> [film |-> ds[d].film, holes |-> ds[d].holes, inside |-> Rows(ds[d].inside)]]]
+                     devs |-> [d \in 1 .. Len(ds) |-> [film |-> ds[d].film, holes |-> ds[d].holes, inside |-> Rows(ds[d].inside),
+                                                      probes |-> ds[d].probes]]]
 
 Init == /\ objs = <<>> /\ devs = <<>> /\ nb = 1 /\ nops = 0
         /\ last = [o |-> NoOp, pre |-> <<>>, pdevs |-> <<>>]
@@ -218,17 +232,29 @@ DoPoke(a, sc) ==
                devs, nb, TRUE)
 
 Distinct(hs) == \A j, k \in 1 .. Len(hs) : j # k => hs[j] # hs[k]
-DoMkDev(f, hs) ==
+\* Device(film, holes, probe_points): the probe points (two of them, or none) are validated against the device at
+\* construction: ValueError unless every one lies inside the film and outside every hole
+ProbeChoice(pm, ins) == CASE pm = "none" -> <<>>
+                          [] pm = "inside" -> <<Centre2(MinCell(ins)), Centre2(MaxCell(ins))>>
+                          [] pm = "outside" -> <<Centre2(MinCell(Cells \ ins)), Centre2(MaxCell(Cells))>>
+DoMkDev(f, hs, pm) ==
   /\ IsObj(f) /\ \A k \in 1 .. Len(hs) : IsObj(hs[k]) /\ hs[k] # f
   /\ Distinct(hs)
-  /\ Commit([NoOp EXCEPT !.op = "mkdev", !.a = f, !.hs = hs, !.res = Len(devs) + 1],
-            objs, Append(devs, [film |-> f, holes |-> hs, inside |-> {}]), nb, TRUE)
+  /\ LET dv0 == [film |-> f, holes |-> hs, inside |-> {}, probes |-> <<>>]
+         ins == InsideSpec(objs, dv0)
+     IN  /\ (pm = "inside" => Cardinality(ins) >= 2) /\ (pm = "outside" => ins # Cells)
+         /\ LET pr == ProbeChoice(pm, ins)
+                o == [NoOp EXCEPT !.op = "mkdev", !.a = f, !.hs = hs, !.pm = pm, !.probes = pr]
+                ok == \A k \in 1 .. Len(pr) : \E c \in InsideMech(objs, dv0) : Centre2(c) = pr[k]
+            IN  IF ok THEN Commit([o EXCEPT !.res = Len(devs) + 1], objs, Append(devs, [dv0 EXCEPT !.probes = pr]), nb, TRUE)
+                ELSE Commit([o EXCEPT !.out = "ValueError"], objs, devs, nb, TRUE)
 
 \* Device.copy(): new polygons (film, then the holes in order), each owning a fresh buffer
 CopiedObjs(os, dv, nbuf) ==
   os \o <<MkObj(os[dv.film].cells, os[dv.film].ccw, nbuf)>>
      \o [k \in 1 .. Len(dv.holes) |-> MkObj(os[dv.holes[k]].cells, os[dv.holes[k]].ccw, nbuf + k)]
-CopiedDev(os, dv) == [film |-> Len(os) + 1, holes |-> [k \in 1 .. Len(dv.holes) |-> Len(os) + 1 + k], inside |-> {}]
+CopiedDev(os, dv) == [film |-> Len(os) + 1, holes |-> [k \in 1 .. Len(dv.holes) |-> Len(os) + 1 + k], inside |-> {},
+                      probes |-> dv.probes]
 DevMembers(dv) == <<dv.film>> \o dv.holes
 
 DoDevCopy(d) ==
@@ -244,11 +270,12 @@ MapMembers(os, ms, Img(_), reflect, nbuf) ==
           MkObj(Img(os[i].cells), IF MOrient THEN TRUE ELSE (IF reflect THEN ~os[i].ccw ELSE os[i].ccw), nbuf + k)
      ELSE os[i]]
 
-DevTransform(o, d, inplace, Img(_), reflect) ==
+DevTransform(o, d, inplace, Img(_), ImgP(_), reflect) ==
   LET dv  == devs[d]
       os1 == IF inplace THEN objs ELSE CopiedObjs(objs, dv, nb)
-      dv1 == IF inplace THEN dv ELSE CopiedDev(objs, dv)
-      ds1 == IF inplace THEN devs ELSE Append(devs, dv1)
+      dv0 == IF inplace THEN dv ELSE CopiedDev(objs, dv)
+      dv1 == [dv0 EXCEPT !.probes = [k \in 1 .. Len(dv.probes) |-> ImgP(dv.probes[k])]]
+      ds1 == IF inplace THEN [devs EXCEPT ![d] = dv1] ELSE Append(devs, dv1)
       nb1 == nb + 1 + Len(dv.holes)
       ms  == DevMembers(dv1)
   IN  /\ \A k \in 1 .. Len(ms) : InGrid(Img(os1[ms[k]].cells))
@@ -257,18 +284,21 @@ DevTransform(o, d, inplace, Img(_), reflect) ==
 
 DoDevTranslate(d, sc, inplace) ==
   /\ IsDev(d)
-  /\ LET Img(S) == ShiftSet(S, PairOf(sc)) IN
-       DevTransform([NoOp EXCEPT !.op = "devtranslate", !.par = PairOf(sc)], d, inplace, Img, FALSE)
+  /\ LET Img(S) == ShiftSet(S, PairOf(sc))
+         ImgP(P) == Shift2(P, PairOf(sc)) IN
+       DevTransform([NoOp EXCEPT !.op = "devtranslate", !.par = PairOf(sc)], d, inplace, Img, ImgP, FALSE)
 DoDevRotate(d, q, oc) ==
   /\ IsDev(d)
-  /\ LET Img(S) == RotSet(S, PairOf(oc), q) IN
-       DevTransform([NoOp EXCEPT !.op = "devrotate", !.q = q, !.org = PairOf(oc)], d, FALSE, Img, FALSE)
+  /\ LET Img(S) == RotSet(S, PairOf(oc), q)
+         ImgP(P) == Rot2(P, IF MProbeOrigin THEN PairOf(oc) ELSE <<0, 0>>, q) IN
+       DevTransform([NoOp EXCEPT !.op = "devrotate", !.q = q, !.org = PairOf(oc)], d, FALSE, Img, ImgP, FALSE)
 DoDevScale(d, fc, oc) ==
   /\ IsDev(d)
   /\ LET f == PairOf(fc)
-         Img(S) == ScaleSet(S, f, PairOf(oc)) IN
+         Img(S) == ScaleSet(S, f, PairOf(oc))
+         ImgP(P) == Scale2(P, f, IF MProbeOrigin THEN PairOf(oc) ELSE <<0, 0>>) IN
        /\ f[1] # 0 /\ f[2] # 0
-       /\ DevTransform([NoOp EXCEPT !.op = "devscale", !.par = f, !.org = PairOf(oc)], d, FALSE, Img, f[1] * f[2] < 0)
+       /\ DevTransform([NoOp EXCEPT !.op = "devscale", !.par = f, !.org = PairOf(oc)], d, FALSE, Img, ImgP, f[1] * f[2] < 0)
 
 ----------------------------------------------------------------------------
 \* enumeration inside the bounds (boxes first, in non-decreasing code order, then operations)
@@ -289,7 +319,7 @@ ATranslate == CanOp /\ "translate" \in PolyOps /\ \E a \in Ids, sc \in Shifts, i
 AScale == CanOp /\ "scale" \in PolyOps /\ \E a \in Ids, fc \in Factors, oc \in Origins, ip \in BOOLEAN : Foc({a}) /\ DoScale(a, fc, oc, ip)
 ACopy == CanOp /\ "copy" \in PolyOps /\ \E a \in Ids : Foc({a}) /\ DoCopy(a)
 APoke == CanOp /\ "poke" \in PolyOps /\ \E a \in Ids, sc \in Shifts : Foc({a}) /\ DoPoke(a, sc)
-AMkDev == CanOp /\ "mkdev" \in DevOps /\ \E f \in Ids, hs \in HoleSeqs : Foc({f} \cup {hs[k] : k \in 1 .. Len(hs)}) /\ DoMkDev(f, hs)
+AMkDev == CanOp /\ "mkdev" \in DevOps /\ \E f \in Ids, hs \in HoleSeqs, pm \in ProbeModes : Foc({f} \cup {hs[k] : k \in 1 .. Len(hs)}) /\ DoMkDev(f, hs, pm)
 ADevCopy == CanOp /\ "devcopy" \in DevOps /\ \E d \in 1 .. Len(devs) : FocD(d) /\ DoDevCopy(d)
 ADevTranslate == CanOp /\ "devtranslate" \in DevOps /\ \E d \in 1 .. Len(devs), sc \in Shifts, ip \in BOOLEAN : FocD(d) /\ DoDevTranslate(d, sc, ip)
 ADevRotate == CanOp /\ "devrotate" \in DevOps /\ \E d \in 1 .. Len(devs), q \in Quarters, oc \in Origins : FocD(d) /\ DoDevRotate(d, q, oc)
@@ -314,6 +344,9 @@ Det == IF L.op \in {"scale", "devscale"} THEN Abs(L.par[1] * L.par[2]) ELSE 1
 ImageOf(S) == CASE L.op \in {"rotate", "devrotate"} -> RotSet(S, L.org, L.q)
                 [] L.op \in {"translate", "devtranslate", "poke"} -> ShiftSet(S, L.par)
                 [] L.op \in {"scale", "devscale"} -> ScaleSet(S, L.par, L.org)
+ImageP(P) == CASE L.op = "devrotate" -> Rot2(P, L.org, L.q)
+               [] L.op = "devtranslate" -> Shift2(P, L.par)
+               [] L.op = "devscale" -> Scale2(P, L.par, L.org)
 \* for a device transform: pairs <<object before, object after>>
 DevPairs == IF L.op \in DevTransforms
             THEN LET old == DevMembers(last.pdevs[L.a])
@@ -337,6 +370,11 @@ AreaLaw == /\ (L.op \in Transforms /\ Ok) => objs[L.res].area = Det * Pre[L.a].a
 \* points map consistently with the shapes: the image of the shape is the shape of the image
 PointsMapWithShapes == /\ (L.op \in Transforms /\ Ok) => objs[L.res].cells = ImageOf(Pre[L.a].cells)
                        /\ \A p \in DevPairs : objs[p[2]].cells = ImageOf(Pre[p[1]].cells)
+                       \* the probe points of a device travel with its film and holes
+                       /\ (L.op \in DevTransforms /\ Ok) =>
+                             LET old == last.pdevs[L.a].probes
+                                 new == devs[L.res].probes
+                             IN  Len(new) = Len(old) /\ \A k \in 1 .. Len(old) : new[k] = ImageP(old[k])
 
 \* union / intersection / difference agree with point-wise membership of the operands;
 \* they raise exactly when the point-wise result is not a polygon
@@ -370,7 +408,7 @@ CopiesDoNotAlias ==
   /\ L.op = "devcopy" => /\ Len(devs) = Len(last.pdevs) + 1
                          /\ LET old == DevMembers(last.pdevs[L.a])
                                 new == DevMembers(devs[L.res]) IN
-                              /\ Len(old) = Len(new)
+                              /\ Len(old) = Len(new) /\ devs[L.res].probes = last.pdevs[L.a].probes
                               /\ \A k \in 1 .. Len(old) : new[k] > NPre /\ Obs(objs[new[k]]) = Obs(Pre[old[k]])
   /\ ((L.op \in Transforms /\ L.inplace) \/ L.op = "poke") => Unchanged((1 .. NPre) \ {L.a})
   /\ (L.op = "devtranslate" /\ L.inplace) =>
@@ -380,9 +418,16 @@ CopiesDoNotAlias ==
 DeviceIsFilmMinusHoles == \A d \in 1 .. Len(devs) : devs[d].inside = InsideSpec(objs, devs[d])
 
 \* transforms, copies and device operations never fail on valid shapes
-OnlySetOpsFail == ~Ok => L.op = "setop"
+OnlySetOpsFail == ~Ok => (L.op = "setop" \/ (L.op = "mkdev" /\ L.pm = "outside"))
+\* probe points are accepted exactly when all of them lie inside the film and outside every hole
+ProbesValidatedAtConstruction ==
+  L.op = "mkdev" =>
+    LET ins == InsideSpec(Pre, [film |-> L.a, holes |-> L.hs])
+        good == \A k \in 1 .. Len(L.probes) : \E c \in ins : Centre2(c) = L.probes[k]
+    IN  IF good THEN Ok /\ Len(devs) = Len(last.pdevs) + 1 /\ devs[L.res].probes = L.probes
+        ELSE L.out = "ValueError" /\ Len(devs) = Len(last.pdevs)
 
-Clauses == /\ TypeOK /\ OnlySetOpsFail /\ AreaMatchesMembership /\ StoredClosedAndCCW /\ AreaLaw /\ PointsMapWithShapes
+Clauses == /\ TypeOK /\ OnlySetOpsFail /\ ProbesValidatedAtConstruction /\ AreaMatchesMembership /\ StoredClosedAndCCW /\ AreaLaw /\ PointsMapWithShapes
            /\ SetOpsArePointwise /\ NonInplaceNeverMutates /\ InplaceReturnsSelf /\ CopiesDoNotAlias
            /\ DeviceIsFilmMinusHoles
 
